@@ -597,4 +597,523 @@ example : ∃ rl re : LoadRes, load {} { data := C02.wfImage } true = .ok rl ∧
     load {} { data := C02.wfImage } false = .ok re ∧ rl.ok = re.ok ∧ ViewEq C02.wfImage rl.obj re.obj :=
   lazy_eq_eager_wf C02.wfImage {} .str rfl (by decide +kernel)
 
+/-! ### whole load, every image (no address translation) -/
+
+/-- two streams over the same bytes whose `failbit`s agree (positions, `eofbit`, last count may differ) -/
+def FlagEq (s s' : IStream) : Prop := s.data = s'.data ∧ s.kind = s'.kind ∧ s.fail = s'.fail
+
+theorem FlagEq.refl (s : IStream) : FlagEq s s := ⟨rfl, rfl, rfl⟩
+theorem FlagEq.symm {s s' : IStream} (h : FlagEq s s') : FlagEq s' s := ⟨h.1.symm, h.2.1.symm, h.2.2.symm⟩
+theorem FlagEq.trans {a b c : IStream} (h : FlagEq a b) (h' : FlagEq b c) : FlagEq a c :=
+  ⟨h.1.trans h'.1, h.2.1.trans h'.2.1, h.2.2.trans h'.2.2⟩
+
+/-- the record read (size probe, seek, read) sees only the bytes, the kind and the failbit -/
+theorem hdrRead_flagEq (tr : List Trans) (s s' : IStream) (h : FlagEq s s') (off : Int) (n : Nat) :
+    (hdrRead tr s off n).2 = (hdrRead tr s' off n).2 ∧
+    (hdrRead tr s off n).1.gcount = (hdrRead tr s' off n).1.gcount ∧
+    FlagEq (hdrRead tr s off n).1 (hdrRead tr s' off n).1 := by
+  obtain ⟨hd, hk, hf⟩ := h
+  cases s with
+  | mk d p e f g k =>
+  cases s' with
+  | mk d' p' e' f' g' k' =>
+    simp only at hd hk hf
+    subst hd; subst hk; subst hf
+    unfold hdrRead streamSizeOf FlagEq
+    cases tr with
+    | nil =>
+      cases f
+      · simp [IStream.seekEnd, IStream.tellg, IStream.good, IStream.seekg, IStream.read]
+        repeat' split
+        all_goals simp_all
+      · simp [IStream.seekEnd, IStream.tellg, IStream.good, IStream.seekg, IStream.read]
+    | cons a l =>
+      cases f
+      · simp [IStream.seekg, IStream.read, IStream.good]
+        repeat' split
+        all_goals simp_all
+      · simp [IStream.seekg, IStream.read, IStream.good]
+
+/-- a record read that leaves the stream unfailed was made on an unfailed stream, so the size
+    probe saw the real length -/
+theorem hdrRead_ss (s : IStream) (off : Int) (n : Nat) (h : (hdrRead [] s off n).1.fail = false) :
+    (hdrRead [] s off n).2.2 = BitVec.ofNat 64 s.data.length := by
+  cases s with
+  | mk d p e f g k =>
+    unfold hdrRead streamSizeOf at h ⊢
+    cases f
+    · simp [IStream.seekEnd, IStream.tellg, IStream.good]
+    · simp [IStream.seekEnd, IStream.tellg, IStream.good, IStream.seekg, IStream.read] at h
+
+theorem isolatedRead_fail_of_fail (s : IStream) (off n : BitVec 64) (h : s.fail = true) :
+    (isolatedRead s off n).1.fail = true := by
+  rw [(isolatedRead_flags s off n).2, h]; simp
+
+/-- with the real length as `stream_size`, `load_data` reads only ranges inside the stream -/
+theorem secOutcome_reads_inrange (c : Cls) (st : IStream) (stype : BitVec 32) (size offset : BitVec 64)
+    (len : Nat) (nd : Bool) (hl : len < 18446744073709551616)
+    (h : (secOutcome c [] st stype size offset (BitVec.ofNat 64 len) nd).reads = true) :
+    offset.toNat + size.toNat ≤ len := by
+  unfold secOutcome at h
+  simp only [secOff_nil] at h
+  have ho := offset.isLt; have hs := size.isLt
+  by_cases g1 : BitVec.ult (BitVec.ofNat 64 len) offset = true
+  · cases c <;> simp [sec32_load_data_off_gt, sec64_load_data_off_gt, g1, SecOutcome.reads] at h
+  · by_cases g2 : (BitVec.ult (BitVec.ofNat 64 len) size || BitVec.ult (BitVec.ofNat 64 len - offset) size) = true
+    · cases c <;> simp [sec32_load_data_off_gt, sec64_load_data_off_gt, sec32_load_data_size_gt,
+        sec64_load_data_size_gt, g1, g2, SecOutcome.reads] at h
+    · simp only [BitVec.ult, BitVec.toNat_sub, BitVec.toNat_ofNat, Nat.reducePow, Bool.or_eq_true,
+        decide_eq_true_eq, not_or, Nat.not_lt] at g1 g2
+      omega
+
+theorem secGetData_fail_preserved (c : Cls) (ls : LoadSt) (b : SecBuf)
+    (h63 : ls.st.data.length < 9223372036854775808)
+    (hss : ls.st.fail = false → b.streamSize = BitVec.ofNat 64 ls.st.data.length) :
+    (secGetData c [] ls b).1.st.fail = ls.st.fail := by
+  rw [secGetData_st]
+  split
+  · rename_i hr
+    simp only [Bool.and_eq_true] at hr
+    cases hf : ls.st.fail
+    · rw [hss hf] at hr
+      have := secOutcome_reads_inrange c ls.st b.stype b.size b.offset _ _ (by omega) hr.2
+      rw [secOff_nil, isolatedRead_ok ls.st b.offset b.size this h63]
+      exact hf
+    · exact isolatedRead_fail_of_fail _ _ _ hf
+  · rfl
+
+theorem fileDataOf_indep (c : Cls) (tr : List Trans) (s s' : IStream) (hd : s.data = s'.data)
+    (hk : s.kind = s'.kind) (b : SecBuf) : fileDataOf c tr s b = fileDataOf c tr s' b := by
+  unfold fileDataOf
+  simp only [secLoadData_snd]
+  rw [secOutcome_indep c tr s s' hd hk]
+
+/-- the section object `section_impl::load` produces depends on the stream only through its bytes,
+    kind and failbit — in either mode -/
+theorem secLoad_snd_flagEq (c : Cls) (enc : Enc) (tr : List Trans) (ls ls' : LoadSt)
+    (h : FlagEq ls.st ls'.st) (off : Int) (isLazy : Bool) (idx : Nat) :
+    (secLoad c enc tr ls off isLazy idx).2 = (secLoad c enc tr ls' off isLazy idx).2 := by
+  obtain ⟨h1, h2, h3⟩ := hdrRead_flagEq tr ls.st ls'.st h off (shdrSize c)
+  rw [secLoad_eq, secLoad_eq]
+  simp only []
+  rw [h2]
+  have e1 : (hdrRead tr ls.st off (shdrSize c)).2.1 = (hdrRead tr ls'.st off (shdrSize c)).2.1 := by rw [h1]
+  have e2 : (hdrRead tr ls.st off (shdrSize c)).2.2 = (hdrRead tr ls'.st off (shdrSize c)).2.2 := by rw [h1]
+  rw [e1, e2]
+  split
+  · rfl
+  · rw [fileDataOf_indep c tr _ _ h3.1 h3.2.1]
+    cases isLazy
+    · simp only [Bool.false_eq_true, if_false]
+      rw [secGetData_snd, secGetData_snd]
+      simp only []
+      rw [secOutcome_indep c tr _ _ h3.1 h3.2.1]
+    · rfl
+
+theorem secLoad_st_flagEq (c : Cls) (enc : Enc) (lsL lsE : LoadSt) (h : FlagEq lsL.st lsE.st)
+    (h63 : lsE.st.data.length < 9223372036854775808) (off : Int) (idx : Nat) :
+    FlagEq (secLoad c enc [] lsL off true idx).1.st (secLoad c enc [] lsE off false idx).1.st := by
+  obtain ⟨h1, h2, h3⟩ := hdrRead_flagEq [] lsL.st lsE.st h off (shdrSize c)
+  rw [secLoad_eq, secLoad_eq]
+  simp only []
+  rw [h2]
+  split
+  · exact h3
+  · simp only [if_true, Bool.false_eq_true, if_false]
+    refine ⟨by simp [h.1], by simp [h.2.1], ?_⟩
+    rw [secGetData_fail_preserved c _ _ (by simpa using h63)
+      (by intro hf; simp only [decodeShdr_streamSize, secInit]; simpa using hdrRead_ss lsE.st off (shdrSize c) hf)]
+    exact h3.2.2
+
+/-! #### pairs of a lazily and an eagerly loaded section -/
+
+def Over (D : Bytes) (K : StreamKind) (ls : LoadSt) : Prop := ls.st.data = D ∧ ls.st.kind = K
+
+/-- a settled section: requesting its data changes nothing observable and is idempotent -/
+def Stable (c : Cls) (D : Bytes) (K : StreamKind) (be : SecBuf) : Prop :=
+  ∀ ls, Over D K ls → secObs (secGetData c [] ls be).2 = secObs be ∧
+    (!(secGetData c [] ls be).2.isLoaded && (secGetData c [] ls be).2.canLoad) = false
+
+/-- `bl` is some state of a lazily loaded section whose eventual data is what `be` already shows -/
+def SecPair (c : Cls) (D : Bytes) (K : StreamKind) (bl be : SecBuf) : Prop :=
+  ∃ b0, Fresh b0 ∧ SecInv b0 (outcomeOf c [] D K b0) bl ∧
+    secObs (secGetApply b0 (outcomeOf c [] D K b0)) = secObs be ∧ Stable c D K be
+
+theorem getApply_settled (b : SecBuf) (o : SecOutcome) :
+    (!(secGetApply b o).isLoaded && (secGetApply b o).canLoad) = false := by
+  rcases o with _ | _ | d | _ | (_ | _) <;> simp [secGetApply, SecOutcome.apply]
+
+theorem stable_of_settled (c : Cls) (D : Bytes) (K : StreamKind) (b : SecBuf)
+    (h : (!b.isLoaded && b.canLoad) = false) : Stable c D K b := by
+  intro ls _
+  have : secGetData c [] ls b = (ls, b) := by rw [secGetData_eq, h]; simp
+  rw [this]; exact ⟨rfl, h⟩
+
+/-- the conclusion one wants from a pair: any interleaving on the lazy side, then a request,
+    shows what a request on the eager side shows -/
+theorem SecPair.obs {c : Cls} {D : Bytes} {K : StreamKind} {bl be : SecBuf} (h : SecPair c D K bl be)
+    (ops : List DataOp) (ls1 ls2 : LoadSt) (h1 : Over D K ls1) (h2 : Over D K ls2) :
+    secObs (secGetData c [] (runSecOps c [] ls1 bl ops).1 (runSecOps c [] ls1 bl ops).2).2 =
+      secObs (secGetData c [] ls2 be).2 := by
+  obtain ⟨b0, hf, hinv, hobs, hst⟩ := h
+  obtain ⟨g1, g2, g3⟩ := runSecOps_inv c [] D K b0 hf ops ls1 bl h1.1 h1.2 hinv
+  rw [← g1, ← g2] at g3
+  rw [request_inv c [] _ b0 _ hf g3, g1, g2, hobs, (hst ls2 h2).1]
+
+theorem SecPair.get {c : Cls} {D : Bytes} {K : StreamKind} {bl be : SecBuf} (h : SecPair c D K bl be)
+    (ls1 ls2 : LoadSt) (h1 : Over D K ls1) (h2 : Over D K ls2) :
+    SecPair c D K (secGetData c [] ls1 bl).2 (secGetData c [] ls2 be).2 ∧
+    secObs (secGetData c [] ls1 bl).2 = secObs (secGetData c [] ls2 be).2 := by
+  obtain ⟨b0, hf, hinv, hobs, hst⟩ := h
+  have hi : SecInv b0 (outcomeOf c [] ls1.st.data ls1.st.kind b0) bl := by rw [h1.1, h1.2]; exact hinv
+  have hr := request_inv c [] ls1 b0 bl hf hi
+  rw [h1.1, h1.2] at hr
+  refine ⟨⟨b0, hf, Or.inl hr, by rw [hobs, (hst ls2 h2).1], stable_of_settled c D K _ (hst ls2 h2).2⟩, ?_⟩
+  rw [hr, hobs, (hst ls2 h2).1]
+
+theorem eager_stable (c : Cls) (enc : Enc) (D : Bytes) (K : StreamKind) (ls : LoadSt) (off : Int) (idx : Nat) :
+    Stable c D K (secLoad c enc [] ls off false idx).2 := by
+  rw [secLoad_eq]
+  simp only []
+  split
+  · intro ls' _
+    rw [secGetData_snd]
+    simp only [secInit, Bool.not_false, Bool.and_self, if_true, Option.isNone_none]
+    have key : ∀ ss, secOutcome c [] ls'.st 0#32 0#64 0#64 ss true = .refuse ∨
+        secOutcome c [] ls'.st 0#32 0#64 0#64 ss true = .keep true :=
+      fun ss => secOutcome_nobits c [] ls'.st _ _ _ ss (by decide)
+    rcases key (hdrRead [] ls.st off (shdrSize c)).2.2 with h | h <;>
+      simp [h, secGetApply, SecOutcome.apply, secObs]
+  · simp only [Bool.false_eq_true, if_false]
+    apply stable_of_settled
+    rw [secGetData_snd]
+    simp only [decodeShdr_isLoaded, decodeShdr_canLoad, secInit, Bool.not_false, Bool.and_self, if_true]
+    exact getApply_settled _ _
+
+theorem secPair_of_load (c : Cls) (enc : Enc) (D : Bytes) (K : StreamKind) (lsL lsE : LoadSt)
+    (h : FlagEq lsL.st lsE.st) (hE : Over D K lsE) (off : Int) (idx : Nat) :
+    SecPair c D K (secLoad c enc [] lsL off true idx).2 (secLoad c enc [] lsE off false idx).2 := by
+  rw [secLoad_snd_flagEq c enc [] lsL lsE h off true idx]
+  have hf := secLoad_lazy_fresh c enc [] lsE off idx
+  have h0 : SecInv (secLoad c enc [] lsE off true idx).2
+      (outcomeOf c [] lsE.st.data lsE.st.kind (secLoad c enc [] lsE off true idx).2)
+      (secLoad c enc [] lsE off true idx).2 := Or.inr ⟨_, rfl, Or.inl rfl⟩
+  have hr := request_inv c [] lsE _ _ hf h0
+  have he := secGetData_lazy_eq_eager c enc [] lsE lsE off idx rfl rfl
+  rw [hr, hE.1, hE.2] at he
+  rw [hE.1, hE.2] at h0
+  exact ⟨_, hf, h0, he, eager_stable c enc D K lsE off idx⟩
+
+theorem getApply_name (b : SecBuf) (o : SecOutcome) (s : Bytes) :
+    secGetApply { b with name := s } o = { secGetApply b o with name := s } := by
+  rcases o with _ | _ | d | _ | (_ | _) <;> simp [secGetApply, SecOutcome.apply]
+
+theorem secGetData_name (c : Cls) (tr : List Trans) (ls : LoadSt) (b : SecBuf) (s : Bytes) :
+    (secGetData c tr ls { b with name := s }).2 = { (secGetData c tr ls b).2 with name := s } := by
+  rw [secGetData_snd, secGetData_snd]
+  simp only []
+  split
+  · exact getApply_name _ _ _
+  · rfl
+
+theorem secObs_name (b : SecBuf) (s : Bytes) : secObs { b with name := s } = { secObs b with name := s } := rfl
+
+/-- setting the same name on both sides keeps a pair a pair -/
+theorem SecPair.name {c : Cls} {D : Bytes} {K : StreamKind} {bl be : SecBuf} (h : SecPair c D K bl be)
+    (s : Bytes) : SecPair c D K { bl with name := s } { be with name := s } := by
+  obtain ⟨b0, hf, hinv, hobs, hst⟩ := h
+  have ho : outcomeOf c [] D K { b0 with name := s } = outcomeOf c [] D K b0 := rfl
+  have hga := getApply_name b0 (outcomeOf c [] D K b0) s
+  refine ⟨{ b0 with name := s }, hf, ?_, ?_, ?_⟩
+  · rw [ho]
+    rcases hinv with h | ⟨ds, h, hds⟩
+    · left; rw [h]; exact hga.symm
+    · right
+      refine ⟨ds, by rw [h], ?_⟩
+      rcases hds with h' | ⟨h1, h2⟩
+      · left; exact h'
+      · right
+        refine ⟨?_, by rw [hga]; exact h2⟩
+        generalize outcomeOf c [] D K b0 = o at h1
+        rcases o with _ | _ | d | _ | (_ | _) <;> simp_all [SecOutcome.apply]
+  · rw [ho, hga]
+    show ({ secObs (secGetApply b0 (outcomeOf c [] D K b0)) with name := s } : SecObs) = { secObs be with name := s }
+    rw [hobs]
+  · intro ls hls
+    rw [secGetData_name]
+    refine ⟨?_, (hst ls hls).2⟩
+    show ({ secObs (secGetData c [] ls be).2 with name := s } : SecObs) = { secObs be with name := s }
+    rw [(hst ls hls).1]
+
+/-- header fields (everything but data / data size) agree in a pair -/
+def hdrFields (b : SecBuf) :=
+  (b.index, b.name, b.nameOff, b.stype, b.flags, b.addr, b.offset, b.size, b.link, b.info, b.addrAlign, b.entSize)
+
+theorem getApply_hdrFields (b : SecBuf) (o : SecOutcome) : hdrFields (secGetApply b o) = hdrFields b := by
+  rcases o with _ | _ | d | _ | (_ | _) <;> simp [secGetApply, SecOutcome.apply, hdrFields]
+
+theorem SecPair.fields {c : Cls} {D : Bytes} {K : StreamKind} {bl be : SecBuf} (h : SecPair c D K bl be) :
+    hdrFields bl = hdrFields be := by
+  obtain ⟨b0, hf, hinv, hobs, hst⟩ := h
+  have h1 : hdrFields bl = hdrFields b0 := by
+    rcases hinv with h | ⟨ds, h, _⟩
+    · rw [h, getApply_hdrFields]
+    · rw [h]; rfl
+  have h2 : hdrFields (secGetApply b0 (outcomeOf c [] D K b0)) = hdrFields be := by
+    simp only [secObs, SecObs.mk.injEq] at hobs
+    simp only [hdrFields, Prod.mk.injEq]
+    exact ⟨hobs.1, hobs.2.1, hobs.2.2.1, hobs.2.2.2.1, hobs.2.2.2.2.1, hobs.2.2.2.2.2.1, hobs.2.2.2.2.2.2.1,
+      hobs.2.2.2.2.2.2.2.1, hobs.2.2.2.2.2.2.2.2.1, hobs.2.2.2.2.2.2.2.2.2.1, hobs.2.2.2.2.2.2.2.2.2.2.1,
+      hobs.2.2.2.2.2.2.2.2.2.2.2.1⟩
+  rw [h1, ← getApply_hdrFields b0 (outcomeOf c [] D K b0), h2]
+
+theorem getString_obs (b b' : SecBuf) (h : secObs b = secObs b') (x : BitVec 32) : getString b x = getString b' x := by
+  simp only [secObs, SecObs.mk.injEq] at h
+  unfold getString
+  rw [h.2.2.2.2.2.2.2.2.2.2.2.2.1, h.2.2.2.2.2.2.2.1]
+
+/-! #### pairwise-related lists -/
+
+inductive Forall2 {α β} (R : α → β → Prop) : List α → List β → Prop
+  | nil : Forall2 R [] []
+  | cons {a b l m} : R a b → Forall2 R l m → Forall2 R (a :: l) (b :: m)
+
+theorem forall2_append {α β} {R : α → β → Prop} {l1 l2 : List α} {m1 m2 : List β}
+    (h1 : Forall2 R l1 m1) (h2 : Forall2 R l2 m2) : Forall2 R (l1 ++ l2) (m1 ++ m2) := by
+  induction h1 with
+  | nil => exact h2
+  | cons h _ ih => exact Forall2.cons h ih
+
+theorem forall2_reverse {α β} {R : α → β → Prop} {l : List α} {m : List β}
+    (h : Forall2 R l m) : Forall2 R l.reverse m.reverse := by
+  induction h with
+  | nil => exact Forall2.nil
+  | cons h _ ih =>
+    simp only [List.reverse_cons]
+    exact forall2_append ih (Forall2.cons h Forall2.nil)
+
+theorem forall2_length {α β} {R : α → β → Prop} {l : List α} {m : List β}
+    (h : Forall2 R l m) : l.length = m.length := by
+  induction h with
+  | nil => rfl
+  | cons _ _ ih => simp [ih]
+
+theorem forall2_get {α β} {R : α → β → Prop} {l : List α} {m : List β}
+    (h : Forall2 R l m) : ∀ i (h1 : i < l.length) (h2 : i < m.length), R l[i] m[i] := by
+  induction h with
+  | nil => intro i h1; exact absurd h1 (by simp)
+  | cons h _ ih =>
+    intro i h1 h2
+    cases i with
+    | zero => exact h
+    | succ i => exact ih i (by simpa using h1) (by simpa using h2)
+
+theorem forall2_set {α β} {R : α → β → Prop} {l : List α} {m : List β}
+    (h : Forall2 R l m) (i : Nat) (x : α) (y : β) (hxy : R x y) : Forall2 R (l.set i x) (m.set i y) := by
+  induction h generalizing i with
+  | nil => exact Forall2.nil
+  | cons h ht ih =>
+    cases i with
+    | zero => exact Forall2.cons hxy ht
+    | succ i => exact Forall2.cons h (ih i)
+
+theorem forall2_of_get {α β} {R : α → β → Prop} : ∀ (l : List α) (m : List β), l.length = m.length →
+    (∀ i (h1 : i < l.length) (h2 : i < m.length), R l[i] m[i]) → Forall2 R l m
+  | [], [], _, _ => Forall2.nil
+  | [], _ :: _, h, _ => by simp at h
+  | _ :: _, [], h, _ => by simp at h
+  | a :: l, b :: m, hl, h =>
+    Forall2.cons (h 0 (by simp) (by simp))
+      (forall2_of_get l m (by simpa using hl)
+        (fun i h1 h2 => h (i + 1) (by simpa using h1) (by simpa using h2)))
+
+/-! #### the section loop, lazy run against eager run -/
+
+theorem hdrRead_fail_mono (tr : List Trans) (s : IStream) (off : Int) (n : Nat) (h : s.fail = true) :
+    (hdrRead tr s off n).1.fail = true := by
+  cases s with
+  | mk d p e f g k =>
+    simp only at h; subst h
+    unfold hdrRead streamSizeOf
+    cases tr <;> simp [IStream.seekEnd, IStream.tellg, IStream.good, IStream.seekg, IStream.read]
+
+theorem secGetData_fail_mono (c : Cls) (tr : List Trans) (ls : LoadSt) (b : SecBuf) (h : ls.st.fail = true) :
+    (secGetData c tr ls b).1.st.fail = true := by
+  rw [secGetData_st]; split
+  · exact isolatedRead_fail_of_fail _ _ _ h
+  · exact h
+
+theorem secLoad_fail_mono (c : Cls) (enc : Enc) (tr : List Trans) (ls : LoadSt) (off : Int) (isLazy : Bool)
+    (idx : Nat) (h : ls.st.fail = true) : (secLoad c enc tr ls off isLazy idx).1.st.fail = true := by
+  have hh := hdrRead_fail_mono tr ls.st off (shdrSize c) h
+  rw [secLoad_eq]; simp only []
+  split
+  · exact hh
+  · cases isLazy
+    · simp only [Bool.false_eq_true, if_false]; exact secGetData_fail_mono _ _ _ _ hh
+    · exact hh
+
+theorem secLoad_over (c : Cls) (enc : Enc) (tr : List Trans) (ls : LoadSt) (off : Int) (isLazy : Bool) (idx : Nat) :
+    (secLoad c enc tr ls off isLazy idx).1.st.data = ls.st.data ∧
+    (secLoad c enc tr ls off isLazy idx).1.st.kind = ls.st.kind := by
+  rw [secLoad_eq]; simp only []
+  split
+  · simp
+  · cases isLazy <;> simp
+
+/-- `stream_size` recorded in a section is the real length unless the stream is (and stays) failed -/
+def SsOk (len : Nat) (ls : LoadSt) (b : SecBuf) : Prop := ls.st.fail = false → b.streamSize = BitVec.ofNat 64 len
+
+theorem secLoad_ssOk (c : Cls) (enc : Enc) (ls : LoadSt) (off : Int) (idx : Nat) :
+    SsOk ls.st.data.length (secLoad c enc [] ls off true idx).1 (secLoad c enc [] ls off true idx).2 := by
+  rw [secLoad_eq]; simp only [if_true]
+  intro hf
+  split at hf <;> split
+  · simp only [secInit]; exact hdrRead_ss ls.st off (shdrSize c) hf
+  · rename_i a b; exact absurd a b
+  · rename_i a b; exact absurd b a
+  · simp only [decodeShdr_streamSize, secInit]; exact hdrRead_ss ls.st off (shdrSize c) hf
+
+theorem loadSectionsLoop_sim (c : Cls) (enc : Enc) (D : Bytes) (K : StreamKind)
+    (h63 : D.length < 9223372036854775808) (shoff : Int) (entsize : Nat) :
+    ∀ (n i : Nat) (lsL lsE : LoadSt) (accL accE : List SecBuf),
+      FlagEq lsL.st lsE.st → Over D K lsE →
+      Forall2 (SecPair c D K) accL accE → (∀ b, b ∈ accL → SsOk D.length lsL b) →
+      Forall2 (SecPair c D K) (loadSectionsLoop c enc [] true shoff entsize n i lsL accL).2
+        (loadSectionsLoop c enc [] false shoff entsize n i lsE accE).2 ∧
+      FlagEq (loadSectionsLoop c enc [] true shoff entsize n i lsL accL).1.st
+        (loadSectionsLoop c enc [] false shoff entsize n i lsE accE).1.st ∧
+      Over D K (loadSectionsLoop c enc [] false shoff entsize n i lsE accE).1 ∧
+      (∀ b, b ∈ (loadSectionsLoop c enc [] true shoff entsize n i lsL accL).2 →
+        SsOk D.length (loadSectionsLoop c enc [] true shoff entsize n i lsL accL).1 b) := by
+  intro n
+  induction n with
+  | zero =>
+    intro i lsL lsE accL accE hF hO hA hS
+    simp only [loadSectionsLoop]
+    exact ⟨forall2_reverse hA, hF, hO, fun b hb => hS b (by simpa using hb)⟩
+  | succ n ih =>
+    intro i lsL lsE accL accE hF hO hA hS
+    simp only [loadSectionsLoop]
+    have hp := secPair_of_load c enc D K lsL lsE hF hO (shoff + Int.ofNat i * Int.ofNat entsize) i
+    have hf' := secLoad_st_flagEq c enc lsL lsE hF (by rw [hO.1]; exact h63) (shoff + Int.ofNat i * Int.ofNat entsize) i
+    have ho' := secLoad_over c enc [] lsE (shoff + Int.ofNat i * Int.ofNat entsize) false i
+    have hdL : lsL.st.data = D := by rw [hF.1, hO.1]
+    apply ih (i + 1) _ _ _ _ hf' ⟨by rw [ho'.1, hO.1], by rw [ho'.2, hO.2]⟩ (Forall2.cons hp hA)
+    intro b hb
+    simp only [List.mem_cons] at hb
+    rcases hb with hb | hb
+    · rw [hb]
+      have := secLoad_ssOk c enc lsL (shoff + Int.ofNat i * Int.ofNat entsize) i
+      rw [hdL] at this; exact this
+    · intro hf
+      apply hS b hb
+      cases hq : lsL.st.fail
+      · rfl
+      · rw [secLoad_fail_mono c enc [] lsL _ true i hq] at hf; exact absurd hf (by simp)
+
+/-! #### the names step -/
+
+theorem getApply_streamSize (b : SecBuf) (o : SecOutcome) : (secGetApply b o).streamSize = b.streamSize := by
+  rcases o with _ | _ | d | _ | (_ | _) <;> simp [secGetApply, SecOutcome.apply]
+
+theorem SecPair.streamSize {c : Cls} {D : Bytes} {K : StreamKind} {bl be : SecBuf} (h : SecPair c D K bl be) :
+    bl.streamSize = be.streamSize := by
+  obtain ⟨b0, hf, hinv, hobs, hst⟩ := h
+  have h1 : bl.streamSize = b0.streamSize := by
+    rcases hinv with h | ⟨ds, h, _⟩
+    · rw [h, getApply_streamSize]
+    · rw [h]
+  have h2 : (secGetApply b0 (outcomeOf c [] D K b0)).streamSize = be.streamSize := by
+    simp only [secObs, SecObs.mk.injEq] at hobs
+    exact hobs.2.2.2.2.2.2.2.2.2.2.2.2.2.2
+  rw [h1, ← getApply_streamSize b0 (outcomeOf c [] D K b0), h2]
+
+theorem resolveNames_sim (c : Cls) (D : Bytes) (K : StreamKind) (sL sE : SecBuf)
+    (hs : ∀ x, getString sL x = getString sE x) :
+    ∀ (l m : List SecBuf), Forall2 (SecPair c D K) l m → ∀ r, resolveNames sE m = .ok r →
+      ∃ r', resolveNames sL l = .ok r' ∧ Forall2 (SecPair c D K) r' r := by
+  intro l m h
+  induction h with
+  | nil => intro r hr; simp only [resolveNames] at hr; exact ⟨[], rfl, by cases hr; exact Forall2.nil⟩
+  | @cons a b l m hab _ ih =>
+    intro r hr
+    have hn : a.nameOff = b.nameOff := by
+      have := hab.fields
+      simp only [hdrFields, Prod.mk.injEq] at this
+      exact this.2.2.1
+    have hga : getString sL a.nameOff = getString sE b.nameOff := by rw [hs, hn]
+    simp only [resolveNames, bind, Except.bind] at hr ⊢
+    rw [hga]
+    cases hg : getString sE b.nameOff with
+    | error f => rw [hg] at hr; exact absurd hr (by simp)
+    | ok x =>
+      rw [hg] at hr
+      simp only at hr ⊢
+      cases hrest : resolveNames sE m with
+      | error f => rw [hrest] at hr; exact absurd hr (by simp)
+      | ok rest =>
+        rw [hrest] at hr
+        obtain ⟨rest', h1, h2⟩ := ih rest hrest
+        rw [h1]
+        simp only [pure, Except.pure, Except.ok.injEq] at hr ⊢
+        refine ⟨_, rfl, ?_⟩
+        rw [← hr]
+        apply Forall2.cons _ h2
+        cases x with
+        | none => exact hab
+        | some s => exact hab.name s
+
+theorem loadNames_sim (c : Cls) (enc : Enc) (hdr : Bytes) (D : Bytes) (K : StreamKind)
+    (h63 : D.length < 9223372036854775808) (lsL lsE : LoadSt) (secsL secsE : List SecBuf)
+    (hF : FlagEq lsL.st lsE.st) (hO : Over D K lsE) (hP : Forall2 (SecPair c D K) secsL secsE)
+    (hS : ∀ b, b ∈ secsL → SsOk D.length lsL b) :
+    ∀ rE, loadNames c enc [] hdr lsE secsE = .ok rE →
+      ∃ rL, loadNames c enc [] hdr lsL secsL = .ok rL ∧ Forall2 (SecPair c D K) rL.2 rE.2 ∧
+        FlagEq rL.1.st rE.1.st ∧ Over D K rE.1 := by
+  intro rE hE
+  have hOL : Over D K lsL := ⟨by rw [hF.1, hO.1], by rw [hF.2.1, hO.2]⟩
+  unfold loadNames at hE ⊢
+  split at hE
+  · rename_i hb; simp only [hb, if_true]
+    cases hE; exact ⟨_, rfl, hP, hF, hO⟩
+  · rename_i hb; simp only [hb, Bool.false_eq_true, if_false]
+    split at hE
+    · rename_i hu; simp only [hu, if_true]
+      cases hE; exact ⟨_, rfl, hP, hF, hO⟩
+    · rename_i hu; simp only [hu, Bool.false_eq_true, if_false]
+      have hlen := forall2_length hP
+      by_cases hlt : (Hdr.e_shstrndx c enc hdr).toNat < secsE.length
+      · have hltL : (Hdr.e_shstrndx c enc hdr).toNat < secsL.length := by rw [hlen]; exact hlt
+        rw [List.getElem?_eq_getElem hlt] at hE
+        rw [List.getElem?_eq_getElem hltL]
+        simp only at hE ⊢
+        have hpair := forall2_get hP _ hltL hlt
+        obtain ⟨hp', hobs⟩ := hpair.get lsL lsE hOL hO
+        have hs := fun x => getString_obs _ _ hobs x
+        have hset := forall2_set hP (Hdr.e_shstrndx c enc hdr).toNat _ _ hp'
+        simp only [bind, Except.bind] at hE ⊢
+        cases hr : resolveNames (secGetData c [] lsE secsE[(Hdr.e_shstrndx c enc hdr).toNat]).2
+            (secsE.set (Hdr.e_shstrndx c enc hdr).toNat
+              (secGetData c [] lsE secsE[(Hdr.e_shstrndx c enc hdr).toNat]).2) with
+        | error f => rw [hr] at hE; exact absurd hE (by simp)
+        | ok r =>
+          rw [hr] at hE
+          obtain ⟨r', h1, h2⟩ := resolveNames_sim c D K _ _ hs _ _ hset r hr
+          rw [h1]
+          simp only [pure, Except.pure, Except.ok.injEq] at hE ⊢
+          refine ⟨_, rfl, ?_⟩
+          rw [← hE]
+          refine ⟨h2, ⟨by simp [hF.1], by simp [hF.2.1], ?_⟩, ⟨by simp [hO.1], by simp [hO.2]⟩⟩
+          have hmem : secsL[(Hdr.e_shstrndx c enc hdr).toNat] ∈ secsL := List.getElem_mem hltL
+          have hssL := hS _ hmem
+          rw [secGetData_fail_preserved c lsL _ (by rw [hOL.1]; exact h63) (by rw [hOL.1]; exact hssL)]
+          rw [secGetData_fail_preserved c lsE _ (by rw [hO.1]; exact h63)
+            (by rw [hO.1, ← hpair.streamSize, ← hF.2.2]; exact hssL)]
+          exact hF.2.2
+      · have hnE : secsE[(Hdr.e_shstrndx c enc hdr).toNat]? = none := List.getElem?_eq_none (by omega)
+        have hnL : secsL[(Hdr.e_shstrndx c enc hdr).toNat]? = none := List.getElem?_eq_none (by omega)
+        rw [hnE] at hE; rw [hnL]
+        cases hE; exact ⟨_, rfl, hP, hF, hO⟩
+
 end ElfioVerif.C15
